@@ -111,6 +111,32 @@ CHECKS = {
         "are C07's subject; known finding tie-below-winner.",
         "3/C06",
     ),
+    "C07": (
+        "model_checking",
+        "TLA+ GeomSpec.tla over lib/Lat3.tla: one definition per documented specifier/operator on the lattice sub-universe "
+        "(cube-group and Pythagorean rotations as integer matrices with a common denominator), evaluated and lemma-checked by TLC "
+        "per case; bound to the code by replay: every case created in a compiled Scenic program, position / orientation matrix / "
+        "operator value compared (abs tol 1e-6)",
+        "TLC evaluates every generated case (constructs x reference poses x rotations x parent orientations), checks the frame "
+        "lemmas (bounding-box gap through the target's inverse orientation, line-of-sight frame, isometry) and prints expected "
+        "position, rotation matrix, angle or squared distance; all replayed on real objects.",
+        "Sub-universe only (quarter lattice, cube rotations + Pythagorean yaws); `by` absent or scalar; `following`/`on`/`distance "
+        "past` not covered; `apparently facing` demanded only for planar parents (known finding); case printer is trusted glue.",
+        "3/C07",
+    ),
+    "C17": (
+        "model_checking",
+        "TLA+ Visibility.tla over lib/Lat3.tla (exact lattice geometry: cube-group and Pythagorean rotations, integer slab test) "
+        "checked by TLC over templates x relative rotations x viewer orientations x viewer parameters x occluder prefixes; bound to "
+        "the code by replay: real Point/OrientedPoint/Object (3D and 2D) built at the printed poses, canSee / "
+        "visibleRegion.containsPoint / the `can see` operator compared",
+        "TLC enumerates every case of the generated cross product, checks the frame lemmas, consistency of the three object clauses "
+        "with each other and with the exact point specification, and monotonicity in occluders; every printed expectation "
+        "(TRUE/FALSE/free per occluder prefix) is replayed on the real objects.",
+        "Sub-universe only: quarter-lattice scenes, 24 cube rotations + 5 Pythagorean yaws, view angles {90,180,270,360}x{90,180}, "
+        "box targets/occluders; exact for points off boundaries, three clauses for objects (rest free).",
+        "3/C17",
+    ),
     "C09": (
         "exploration",
         "TLA+ PyFront.tla (Python 3.12 abstract grammar as data + Rewrite = the documented rewrites, invariants Total / "
